@@ -120,9 +120,29 @@ def eval_defined(ctx, rsl):
         try:
             v = f(z, rsl.args[part])
             res[part] = "ok"
+            # a part is a FUNCTION of its argument: evaluated again (after another point in between) it returns the same term --
+            # hidden state (a list that grows, a value folded in place) would make the convolved object depend on the quadrature's order
+            f(z * real.Fr(1, 2) + real.Fr(1, 4), rsl.args[part])
+            v2 = f(z, rsl.args[part])
+            a, b = S.lift(v), S.lift(v2)
+            if not a.t.eq(b.t) and not (a.const is not None and a.const == b.const):
+                res["impure:" + part] = (a, b)
         except (real.NotEncodable, real.Concretised, TypeError) as e:
             res[part] = f"not-encodable: {type(e).__name__}: {str(e)[:80]}"
     return res
+
+
+def replay_pure(args):
+    obj = _float_obj(args)
+    rsl = obj[args["order"]]()
+    f = getattr(rsl, args["part"])
+    z = args.get("z", 0.37)
+    a = float(f(z, rsl.args[args["part"]]))
+    f(z / 2 + 0.25, rsl.args[args["part"]])
+    b = float(f(z, rsl.args[args["part"]]))
+    if abs(a - b) > 1e-12 * max(1.0, abs(a)):
+        return True, f"{args['cls']}/o{args['order']}/{args['part']} at z={z}: first evaluation {a!r}, third evaluation {b!r}"
+    return False, "same value"
 
 
 # ---------------------------------------------------------------------------------------------
@@ -203,7 +223,7 @@ def replay_defined(args):
     return False, f"{args['part']}({args['z']}) = {v} is finite"
 
 
-REPLAYERS = {"identity": replay_identity, "defined": replay_defined}
+REPLAYERS = {"pure": replay_pure, "identity": replay_identity, "defined": replay_defined}
 
 GRID = [0.013, 0.11, 0.27, 0.4, 0.5, 0.63, 0.77, 0.9, 0.985]
 
@@ -372,6 +392,21 @@ def check_defined(chk, item, seed, tier):
             for p in paths:
                 if p.kind == "ok" and p.value:
                     for part, st in p.value.items():
+                        if part.startswith("impure:"):
+                            a_, b_ = st
+                            chk.obligations += 1
+                            v_ = chk.prover.check(ctx.facts() + p.pc + [a_.t != b_.t], f"{key}/o{order}/{part}")
+                            if v_.status == "unsat":
+                                chk.discharged += 1
+                                continue
+                            ctx.assign = dict(p.assign)
+                            mm = model_masses(ctx, v_.model, kws)
+                            asg = explore.model_to_assign(ctx, v_.model)
+                            chk.report(f"pure:{fam}.{mname}.{cname}:o{order}:{part[7:]}", f"{key}/o{order}/{part[7:]}: the same argument gives another value on a later "
+                                       f"evaluation (the part is not a function of z)", "pure",
+                                       dict(module=cls.__module__, cls=cname, order=order, nf=nf, proc=proc, xB=mm["xB"], Q2=mm["Q2"], masses={k: mm[k] for k in kws},
+                                            z=float(asg.get("z", p.assign.get("z", 0.37))), part=part[7:]))
+                            continue
                         if st != "ok":
                             chk.section("defined_not_encodable", **{f"{key}/o{order}/{part}": st})
             s = z3.Solver()
